@@ -8,7 +8,8 @@ from gens.programs import Opts, Gen
 from props import funcs_common as FC
 
 THEOREMS = ['sum_is_matrix_sum', 'composition_is_matrix_product', 'composition_is_matrix_product_everywhere',
-            'composition_keeps_infinity', 'sum_keeps_infinity', 'results_well_formed']
+            'composition_keeps_infinity', 'sum_keeps_infinity', 'results_well_formed',
+            'fixpoint_is_closure', 'while_correction_pointwise']
 RULE = ('relations built by the real analysis from assignment statements (all operand patterns), then combined by '
         'random composition, sum, fixpoint and while/loop correction, over differently ordered and partially '
         'overlapping variable lists, <=4 derivation indices; for every pair the real sum / composition / fixpoint are '
